@@ -410,3 +410,21 @@ _reg(DecodeProp(
     _c10,
     "every accepted vector of the streams: Encode() against the specification's canonical string, String() = Encode(), and the flag rt "
     "(re-decoding the encoding gives the same fields, scores and encoding)"))
+
+
+def _c11(tier, rng):
+    heavy = tier == "thorough"
+    yield ("v3 single-edit neighbourhood: every metric x every position x each decoder; full vectors with extra tokens",
+           S.parser3_ops(rng, 18 if tier == "quick" else 300, heavy, nrandom=2000 if tier == "quick" else 100000), False)
+    yield ("v2 single-edit neighbourhood incl. partial groups and reorderings",
+           S.parser2_ops(rng, 12 if tier == "quick" else 200, heavy, nrandom=2000 if tier == "quick" else 100000), False)
+
+
+_reg(DecodeProp(
+    "C11", ["CvssVerif.Props.C11"],
+    ["CvssVerif.Props.C11.err3_sound", "CvssVerif.Props.C11.err2_sound", "CvssVerif.Props.C11.single_defect3",
+     "CvssVerif.Props.C11.single_defect2", "CvssVerif.Props.C11.err3_kinds"],
+    _c11,
+    "every rejected string of the edit-neighbourhood streams at all six decoders: the set of sentinels matching under errors.Is must be a "
+    "singleton, equal to the model's error, and a member of the defect classes the specification oracle finds in the string",
+    assumptions=["errors.Is semantics of github.com/goark/errs wrapping"]))
